@@ -235,8 +235,9 @@ def run_session_case(case: Dict[str, Any], rep_ops: Optional[List[Dict[str, Any]
         if o["status"] == "raised":
             if f_status != "raised":
                 rec["problems"].append(f"op {i} ({kind}, {op['mode']}): raised ({o.get('msg')}) but a fresh run_all succeeds")
-            elif op["fail"] and not (o["fault"] and f_val):
-                rec["problems"].append(f"op {i} ({kind}): injected fault not reported by both (session {o['fault']}, fresh {f_val})")
+            elif bool(o["fault"]) != bool(f_val):
+                rec["problems"].append(f"op {i} ({kind}): the injected fault is reported by one of session / fresh run_all only "
+                                       f"(session {o['fault']}, fresh {f_val})")
         elif o["status"] == "ok":
             if f_status != "ok":
                 rec["problems"].append(f"op {i} ({kind}, {op['mode']}): succeeded but a fresh run_all raises")
@@ -693,7 +694,7 @@ def run_args_case(case: Dict[str, Any]) -> Dict[str, Any]:
                 else:
                     rec["problems"].append(what)
                 sessions[sj] = (s_old, now)
-        if got.get("session") is not None:
+        if got.get("session") is not None and call["copy"]:      # with copy_features=False the plan shares the caller's features
             sessions.append((got["session"], dump(got["session"].engine.execution_planner)))
         got.pop("session", None)
         rec["calls"].append(c)
